@@ -150,6 +150,5 @@ def idle_cases(chk, tier):
 
 
 def replay(spec):
-    import json
-    print(json.dumps(spec, indent=1)[:5000])
-    return 0
+    from checks import lp
+    return lp.replay_case(spec)
